@@ -51,11 +51,17 @@ func c02r1(r *R) {
 					bad["header fields written in the middle of a line"] = true
 				}
 				state = "LS"
-			case strings.HasPrefix(e.Desc, "io.WriteString($0, "):
+			case strings.HasPrefix(e.Desc, "io.WriteString($0, ") || strings.HasPrefix(e.Desc, "invoke io.Writer.Write($0, ") || strings.HasPrefix(e.Desc, "fmt.Fprint($0, "):
 				if state == "DONE" {
 					bad["data written after the blank line"] = true
 				}
-				arg := strings.TrimSuffix(strings.TrimPrefix(e.Desc, "io.WriteString($0, "), ")")
+				arg := e.Desc[strings.Index(e.Desc, "($0, ")+5 : len(e.Desc)-1]
+				if strings.HasPrefix(e.Desc, "fmt.Fprint(") {
+					// single constant operand in the variadic slice
+					if v, ok := p.Mem[strings.TrimSuffix(arg, "[:]")+"[0]"]; ok {
+						arg = v
+					}
+				}
 				switch {
 				case arg == `"\r\n"` && state == "LS":
 					state = "DONE"
